@@ -293,6 +293,73 @@ class StoreMetadata(Scenario):
         return "ok"
 
 
+class StoreFloatKinds(Scenario):
+    """float data given as arrays of every numpy float dtype (concrete values incl. NaN and infinities, chosen by symbolic
+    indices): what a fresh reader returns equals what was written -- NaN as NaN -- whatever the input precision"""
+    pid = "C08"
+    include_io = True
+
+    def body(self, cx):
+        from geoh5py.workspace import Workspace
+        from geoh5py.objects import Points
+        dts = ["float16", "float32", "float64", "longdouble"]
+        pats = [[1.5, float("nan"), -2.25], [float("nan"), float("nan"), 0.5], [float("inf"), 3.0, float("-inf")], [0.0, -0.0, 1024.0]]
+        dt = dts[int(cx.int("input_dtype", 0, len(dts)))]
+        pat = pats[int(cx.int("values", 0, len(pats)))]
+        via_setter = bool(cx.bool("assigned_after_creation"))
+        ws = Workspace()
+        pts = Points.create(ws, vertices=real_np.zeros((3, 3)))
+        arr = real_np.array(pat, dtype=dt)
+        try:
+            if via_setter:
+                d = pts.add_data({"f": {"values": real_np.zeros(3)}})
+                d.values = arr
+            else:
+                d = pts.add_data({"f": {"values": arr}})
+        except Exception as e:  # noqa: BLE001
+            return f"raised {type(e).__name__}"
+        uid = d.uid
+        ws.close()
+        ws2 = Workspace(ws.h5file)
+        back = [float(v) for v in ws2.get_entity(uid)[0].values]
+        ws2.close()
+        ok = len(back) == 3 and all((b != b and p != p) or (b == p) for b, p in zip(back, pat))
+        cx.prove(ok, f"{dt} values {pat} read back equal, NaN as NaN (got {back})", "float dtypes read back")
+        return "ok"
+
+
+class StoreComments(Scenario):
+    """comments added one after another to an object or a group: every comment is read back by a fresh reader"""
+    pid = "C08"
+    include_io = True
+
+    def body(self, cx):
+        from geoh5py.workspace import Workspace
+        from geoh5py.objects import Points
+        from geoh5py.groups import ContainerGroup
+        n = int(cx.int("comments", 1, 4))
+        on_group = bool(cx.bool("on_a_group"))
+        reopen_between = bool(cx.bool("session_closed_between_comments"))
+        ws = Workspace()
+        ent = ContainerGroup.create(ws, name="G") if on_group else Points.create(ws, vertices=real_np.zeros((2, 3)), name="P")
+        uid = ent.uid
+        texts = ["first \u00e9", "second comment", "third"][:n]
+        for q, t in enumerate(texts):
+            ent.add_comment(t, author=f"author {q}")
+            if reopen_between and q < n - 1:
+                ws.close()
+                ws = Workspace(ws.h5file)
+                ent = ws.get_entity(uid)[0]
+        ws.close()
+        ws2 = Workspace(ws.h5file)
+        e2 = ws2.get_entity(uid)[0]
+        got = [(c["Author"], c["Text"]) for c in (e2.comments.values if e2.comments is not None else [])]
+        ws2.close()
+        cx.prove(got == [(f"author {q}", t) for q, t in enumerate(texts)], f"all {n} comments are read back, in order (got {got})",
+                 "comments read back")
+        return "ok"
+
+
 def _integral(v):
     if is_sym(v):
         import z3
@@ -316,7 +383,7 @@ def scenarios(tier, seed):
               StoreValues(kind="boolean", dtype="int64", pattern="ss"),
               StoreValues(kind="boolean", dtype="bool", pattern="ss"),
               StoreValues(kind="boolean", dtype="float64", pattern="ss"),
-              StoreValueMap(keys=2), StoreValueMapKeys(), StoreMetadata(),
+              StoreValueMap(keys=2), StoreValueMapKeys(), StoreMetadata(), StoreFloatKinds(), StoreComments(),
               StoreValues(kind="integer", dtype="int8", pattern="s", short=1),
               StoreValues(kind="integer", dtype="uint16", pattern="ss", short=1),
               StoreValues(kind="float", dtype="float64", pattern="s", short=2),
@@ -334,7 +401,7 @@ def scenarios(tier, seed):
         for pat in ("sn", "+", "-", "s+", "sss", "ns-"):
             S.append(StoreValues(kind="integer", dtype="float64", pattern=pat))
         S += [StoreValues(kind="boolean", dtype="bool", pattern="sss"), StoreValueMap(keys=2), StoreValueMap(keys=3),
-              StoreValueMapKeys(), StoreMetadata()]
+              StoreValueMapKeys(), StoreMetadata(), StoreFloatKinds(), StoreComments()]
         for dt in DT_RANGE:
             S.append(StoreValues(kind="integer", dtype=dt, pattern="s", short=1))
             S.append(StoreValues(kind="float", dtype=dt, pattern="s", short=1))
@@ -362,5 +429,5 @@ def main(tier, seed):
         bounds={"quick": "arrays of 1-3 elements, each a symbolic finite value / NaN / +inf / -inf; float, integer and boolean "
                          "data; input dtypes float64, int64, int32, uint32, bool; magnitudes unbounded within the dtype",
                 "thorough": "all of numpy's integer dtypes and float32/float64 as input dtype for each data kind"}[tier],
-        expected_outcomes={"StoreValues": {"ok"}, "StoreValueMap": {"ok"}, "StoreValueMapKeys": {"ok"}, "StoreMetadata": {"ok"}},
+        expected_outcomes={"StoreValues": {"ok"}, "StoreValueMap": {"ok"}, "StoreValueMapKeys": {"ok"}, "StoreMetadata": {"ok"}, "StoreFloatKinds": {"ok"}, "StoreComments": {"ok"}},
     )
